@@ -173,6 +173,7 @@ def step (st : State) (w : List String) : State × String :=
   -- `msg serve <ub|ud|ts|tl> <directPack> <-|abort|abort2|commit> lib=<outcome> ulen=<n>`: `udpReply` / `tcpReply` on the last skeleton;
   -- the library's outcome for the message is an observation (`ok/<len>`: that many bytes)
   | ["msg", "serve", tr, dp, hist, libo, ul] =>
+    if st.last.isNone then (st, "unmodelled") else   -- no skeleton (a shrunk replay): the oracle alone judges
     match st.last, parseBool dp, kv "lib" libo, (kv "ulen" ul).bind String.toNat? with
     | some sk, some d, some lo, some ulen =>
       let pst : PState Rest (List (Option Nat)) := { buf := List.replicate packBufferSize 0x55 }
@@ -216,6 +217,7 @@ def step (st : State) (w : List String) : State × String :=
   | ["msg", "new", _, _] => ({ st with last := none }, "unmodelled")
   -- `msg write <directPack> <internal> lib=<library outcome>`: the model's `writeMsg` on the last skeleton
   | ["msg", "write", dp, int, libo] =>
+    if st.last.isNone then (st, "unmodelled") else
     match st.last, parseBool dp, parseBool int, kv "lib" libo with
     | some sk, some d, some i, some lo =>
       let pst : PState Rest (List (Option Nat)) := { buf := List.replicate packBufferSize 0x55 }
